@@ -133,6 +133,10 @@ pub fn generate_join<T: JoinInput<Chain = ActionExprChain, Handler = Handler>>(
         Ok(output) => output.into_token_stream(),
         // A join which doesn't fit the macro (for ex. `then` handler of `try_join!`) is the caller's mistake:
         // report it as a compile error instead of a panic of the macro.
-        Err(message) => quote::quote! { ::std::compile_error!(#message) },
+        Err(message) => quote::quote! {{
+            #[allow(unused_extern_crates)]
+            extern crate core as __join_core;
+            __join_core::compile_error!(#message)
+        }},
     }
 }
